@@ -255,3 +255,130 @@ Proof.
   unfold select_with in R2. rewrite R2 in R2'. inversion R2'; subst st2.
   exists t. auto.
 Qed.
+
+(* ------------------------------------------------------------------ the three rules *)
+Lemma last_opt_snoc {A} (l : list A) x : last_opt (l ++ [x]) = Some x.
+Proof. unfold last_opt. rewrite rev_app_distr. reflexivity. Qed.
+
+Lemma find_ext_in {A} (f g : A -> bool) l : (forall x, In x l -> f x = g x) -> find f l = find g l.
+Proof.
+  induction l as [|x t IH]; intros H; cbn; [reflexivity|].
+  rewrite (H x (or_introl eq_refl)). rewrite IH; [reflexivity|]. intros y Hy. apply H. right. exact Hy.
+Qed.
+
+Lemma snapshot_length n_genes st : length (snapshot n_genes st) = n_genes.
+Proof. unfold snapshot, genes. rewrite map_length, seq_length. reflexivity. Qed.
+
+Lemma snapshot_nth n_genes st g : g < n_genes -> nth g (snapshot n_genes st) (-1)%Z = utility st g.
+Proof.
+  intros H. unfold snapshot, genes.
+  rewrite (nth_indep _ (-1)%Z (utility st 0)) by (rewrite map_length, seq_length; exact H).
+  rewrite map_nth, seq_nth by exact H. reflexivity.
+Qed.
+
+(* (1) `greedy` is run_with for the rule "first unchosen gene of maximal utility" *)
+Lemma pick_first_max_is_first_max n_genes pairs marks n st hist :
+  pick_first_max (observe n_genes pairs marks n st hist) (chosen st) =
+  first_max n_genes (update_filled n_genes pairs marks n st).
+Proof.
+  unfold pick_first_max, observe. rewrite last_opt_snoc. rewrite snapshot_length.
+  unfold first_max. apply find_ext_in. intros g Hg. apply in_seq in Hg.
+  rewrite snapshot_nth by lia. reflexivity.
+Qed.
+
+Theorem greedy_is_run_with n_genes pairs marks n fuel : forall hist st,
+  wres_opt (run_with n_genes pairs marks n pick_first_max fuel hist st) = greedy n_genes pairs marks n fuel st.
+Proof.
+  induction fuel as [|f IH]; intros hist st; [reflexivity|]. rewrite run_with_S. cbn [greedy].
+  destruct (finished n_genes pairs (update_filled n_genes pairs marks n st)) eqn:F; [reflexivity|].
+  rewrite pick_first_max_is_first_max.
+  destruct (first_max n_genes (update_filled n_genes pairs marks n st)) as [g|] eqn:FM; [|reflexivity].
+  unfold first_max in FM. apply find_some in FM. destruct FM as [Hg Hp].
+  unfold step. rewrite F.
+  apply andb_true_iff in Hp. destruct Hp as [Hp1 Hp2].
+  replace (nmem g (genes n_genes)) with true by (symmetry; apply nmem_in; exact Hg).
+  rewrite Hp1, Hp2. cbn [andb]. apply IH.
+Qed.
+
+Corollary greedy_is_select_with n_genes pairs marks n :
+  wres_opt (select_with n_genes pairs marks n pick_first_max) =
+  greedy n_genes pairs marks n (S n_genes) (start n_genes pairs marks n).
+Proof. apply greedy_is_run_with. Qed.
+
+(* (2) every legal recorded choice sequence is run_with for the rule that reads it off *)
+Lemma run_is_run_with n_genes pairs marks n nd trace : forall pre st st' fuel hist,
+  run n_genes pairs marks n st trace = Some st' ->
+  length (chosen st) = nd + length pre -> length trace < fuel ->
+  run_with n_genes pairs marks n (pick_of_trace nd (pre ++ trace)) fuel hist st = WDone st'.
+Proof.
+  induction trace as [|g t IH]; intros pre st st' fuel hist R L Hf;
+    (destruct fuel as [|f]; [cbn in Hf; lia|]); rewrite run_with_S; cbn in R.
+  - destruct (finished n_genes pairs (update_filled n_genes pairs marks n st)); [|discriminate].
+    inversion R. reflexivity.
+  - destruct (step n_genes pairs marks n st g) as [s1|] eqn:S; [|discriminate].
+    pose proof (step_inv _ _ _ _ _ _ _ S) as SI. cbv zeta in SI. destruct SI as (F & _).
+    rewrite F. unfold pick_of_trace at 1. rewrite L.
+    replace (nd + length pre - nd) with (length pre) by lia.
+    rewrite nth_error_app2 by lia. rewrite Nat.sub_diag. cbn [nth_error]. rewrite S.
+    replace (pre ++ g :: t) with ((pre ++ [g]) ++ t) by (rewrite <- app_assoc; reflexivity).
+    apply IH; [exact R | | cbn in Hf; lia].
+    rewrite (step_chosen _ _ _ _ _ _ _ S), !app_length. cbn. lia.
+Qed.
+
+Theorem trace_is_select_with n_genes pairs marks n trace st :
+  run n_genes pairs marks n (start n_genes pairs marks n) trace = Some st ->
+  select_with n_genes pairs marks n (pick_of_trace (length (chosen (start n_genes pairs marks n))) trace) = WDone st.
+Proof.
+  intros R. unfold select_with. apply (run_is_run_with n_genes pairs marks n _ trace [] _ _ _ _ R).
+  - cbn. lia.
+  - pose proof (iterations_bounded _ _ _ _ _ _ R). lia.
+Qed.
+
+(* the three rules do not look at the order of the chosen lists *)
+Lemma last_opt_same h h' : hist_same h h' ->
+  match last_opt h, last_opt h' with
+  | Some e, Some e' => hentry_same e e'
+  | None, None => True
+  | _, _ => False
+  end.
+Proof.
+  intros H. apply hist_same_rev in H. unfold last_opt. destruct H; [exact Logic.I | assumption].
+Qed.
+
+Lemma pick_first_max_respects : pick_respects pick_first_max.
+Proof.
+  intros h h' c c' Hh Hc. unfold pick_first_max. pose proof (last_opt_same h h' Hh) as L.
+  destruct (last_opt h) as [[[fl u] ch]|], (last_opt h') as [[[fl' u'] ch']|]; try contradiction; [|reflexivity].
+  destruct L as [L _]. cbn in L. inversion L; subst. apply find_ext'. intros g.
+  rewrite (nmem_perm g _ _ Hc). reflexivity.
+Qed.
+
+Lemma pick_of_trace_respects nd trace : pick_respects (pick_of_trace nd trace).
+Proof.
+  intros h h' c c' _ Hc. unfold pick_of_trace. rewrite (Permutation_length Hc). reflexivity.
+Qed.
+
+Lemma find_flag_same h h' : hist_same h h' ->
+  match find (fun e : hentry => fst (fst e)) h, find (fun e : hentry => fst (fst e)) h' with
+  | Some e, Some e' => hentry_same e e'
+  | None, None => True
+  | _, _ => False
+  end.
+Proof.
+  intros H. induction H as [|e e' l l' He _ IH]; cbn; [exact Logic.I|].
+  pose proof He as [E1 _]. rewrite <- E1. destruct (fst (fst e)); [exact He | exact IH].
+Qed.
+
+Lemma pick_pop_respects sorter : pick_respects (pick_pop sorter).
+Proof.
+  intros h h' c c' Hh Hc. unfold pick_pop.
+  pose proof (find_flag_same _ _ (hist_same_rev _ _ Hh)) as L.
+  destruct (find _ (rev h)) as [[[fl u] ch]|], (find _ (rev h')) as [[[fl' u'] ch']|]; try contradiction; [|reflexivity].
+  destruct L as [L1 L2]. cbn in L1, L2. inversion L1; subst. f_equal.
+  apply filter_ext. intros g. rewrite (nmem_perm g _ _ Hc), (nmem_perm g _ _ L2). reflexivity.
+Qed.
+
+(* the hypothesis pick_respects cannot be dropped: the desperate phase emits its genes in the order of
+   the pairs, so a rule that looks at the ORDER of marker_gene_name_list can tell the two orders apart *)
+Definition pick_peeking : pick_fn := fun _ ch =>
+  match ch with 0 :: _ => Some 3 | _ => Some 4 end.
